@@ -219,6 +219,7 @@ def mapping_arguments(ctx):
                   "update() never stamps")
     data_delete_through_odict(ctx)
     change_assigns_every_field(ctx)
+    data_namespace_private(ctx)
 
 
 def change_assigns_every_field(ctx, rule="T2-assign"):
@@ -241,6 +242,27 @@ def change_assigns_every_field(ctx, rule="T2-assign"):
     ctx.check(ok and bool(loops), rule, f, "Share.change writes each given field with setattr(self._data, k, v), whatever it held before",
               "a write that is skipped when the field already compares equal keeps the old object: 1 then `put 1.0` (or True) leaves "
               "the int, so the value a script literal was converted to is not the value (and type) the share ends up holding")
+
+
+def data_namespace_private(ctx):
+    """a Data record keeps its fields as attributes: any public name bound on the class (a convenience method `get`, a constant)
+    is found by __setattr__'s "the class already has it" branch and by hasattr(), so the legal field name of that spelling is
+    written past the ordered key list and create() takes it for present"""
+    ctx.rule("T1-namespace", "class Data binds only names that start with an underscore (no public method or class attribute)")
+    D = ctx.cls("storing", "Data")
+    k = 0
+    for st in D.node.body:
+        names = [st.name] if isinstance(st, (ast.FunctionDef, ast.ClassDef)) else \
+            [t.id for t in getattr(st, "targets", []) if isinstance(t, ast.Name)] if isinstance(st, ast.Assign) else \
+            [st.target.id] if isinstance(st, ast.AnnAssign) and isinstance(st.target, ast.Name) else []
+        for n in names:
+            k += 1
+            ctx.check(n.startswith("_"), "T1-namespace", st, "Data binds %s" % n,
+                      "`%s` is a legal public field name: with the class defining it, share.update(%s=..) stores the value outside "
+                      "the record's key list (keys()/items()/len() miss it) and create(%s=..) does nothing" % (n, n, n))
+    ctx.floor("T1-namespace:names", k, 6)
+    for b in D.node.bases:
+        ctx.check(dotted(b) in ("object",), "T1-namespace", D.node, "Data derives from object only (%s)" % src(b), "an inherited public name has the same effect")
 
 
 def data_delete_through_odict(ctx):
